@@ -7,7 +7,7 @@
    C15_align_operand; what stays outside is stated in the comment of C15_no_internal_exception. *)
 From Coq Require Import ZArith List String.
 From BB Require Import Base.PyBase Gen.Encoders Model.Items Model.Encode Model.Passes
-  Proofs.Layout Proofs.Pipeline Proofs.Errors Proofs.Examples Model.Parser Proofs.ParseErrors Proofs.EncSig Proofs.EncTotal Proofs.NoRaw Proofs.ParseOk Gen.ParseTable Proofs.ParseTable.
+  Proofs.Layout Proofs.Pipeline Proofs.Errors Proofs.Examples Model.Parser Proofs.ParseErrors Proofs.EncSig Proofs.EncTotal Proofs.NoRaw Proofs.ParseOk Gen.ParseTable Proofs.ParseTable Proofs.ReaderErrors.
 Import ListNotations.
 Open Scope Z_scope.
 
@@ -64,6 +64,28 @@ Theorem C15_align_operand :
     end.
 Proof. exact ParseErrors.align_operand. Qed.
 Print Assumptions C15_align_operand.
+
+(* missing include file, at the READER: read_lines (Model/Reader.v, tied to asm.read_lines by the reader correspondence of C14)
+   never fails with a raw exception when its argument is a source text or a file -- every include / include_bytes it follows
+   was found by the search, which accepts files only (a directory of that name made open() raise: defect D25, repo commit
+   30b3d5d) -- and a missing include is the assembler's own error at the include line of the including file, whatever blank
+   lines stand in front of it *)
+Theorem C15_reader_no_raw :
+  forall fuel fs cwd incs top,
+    (Reader.fs_exists fs cwd top = true -> Reader.fs_isfile fs cwd top = true) ->
+    Reader.read_lines fuel fs cwd incs top <> Reader.RErr Reader.ERaw.
+Proof.
+  intros fuel fs cwd incs top H E. pose proof (ReaderErrors.read_lines_noraw fuel fs cwd incs top H) as N. rewrite E in N. exact N.
+Qed.
+Print Assumptions C15_reader_no_raw.
+Theorem C15_missing_include_located :
+  forall rec fs cwd file dirs pre i raw rel rest,
+    Forall (fun nl => Reader.is_blank (snd nl) = true) pre ->
+    Reader.is_blank raw = false -> Reader.is_include raw = true -> Reader.include_target raw = Some rel ->
+    Reader.lookup fs cwd rel dirs = None ->
+    Reader.read_numbered rec fs cwd file dirs (app pre ((i, raw) :: rest)) = Reader.RErr (Reader.EAsm file i Reader.MIncludeMissing).
+Proof. exact ReaderErrors.missing_include_located. Qed.
+Print Assumptions C15_missing_include_located.
 
 (* duplicate label: the label pass fails exactly at a SECOND definition (the line it names is a label item whose name
    was defined earlier), and a successful run means all label names are distinct *)
